@@ -113,6 +113,12 @@ def run(chk):
         ref, mat = matrix(main_re, excl_re, tier)
         mats[name] = (ref, mat)
         jobs.append((name, dict(d=d, specs=[ref] + [s for s, _ in mat], timeout=(150 if tier == "quick" else 600), patterns=pats)))
+    # several taint-tracking problems share ONE alarm counter (taint.Analyze runs one visitor pass per problem on the same state):
+    # config_multi.yaml splits the sources/sinks of a generated program over three problems
+    for name, d, man, main_re, excl_re, pats in progs:
+        if man is not None:
+            jobs.append((("multi", name), dict(d=d, specs=["od=0", "od=0,ma=1", "od=0,ma=2", "od=1,ma=2"] + ([] if tier == "quick" else ["od=1", "od=0,ma=5"]),
+                                               timeout=(150 if tier == "quick" else 600), config=os.path.join(d, "config_multi.yaml"))))
     # backward analysis (uses FnWritesTo for its on-demand pre-building): eager vs on-demand on the generated programs
     for name, d, man, main_re, excl_re, pats in progs:
         if man is not None and name == "regress":
@@ -235,6 +241,67 @@ def run(chk):
                     f.write("max-alarms=%d on %s: %s\nlimited  : %s\nunlimited: %s\n\nre-run: %s -dir %s %s %s\n"
                             % (k, name, why, sorted(p)[:20], sorted(p0)[:20], C.TRUN, pd, ref_s, s))
                 chk.violation(key, "max-alarms=%d on %s: %s" % (k, name, why), rd)
+
+    # ---------------------------------------------------------------- max-alarms with several taint-tracking problems
+    stats["multi_checks"] = 0
+    stats["multi_ok"] = 0
+    stats["multi_problems_with_flows"] = 0
+    for name, d, man, main_re, excl_re, pats in progs:
+        res = results.get(("multi", name))
+        if res is None:
+            continue
+        if res.get("fatal"):
+            raise vlib.BuildError("trun (multi-problem config) failed on %s" % name, res["fatal"])
+        runs = {r["spec"]: r for r in res["runs"]}
+        r0 = runs.get("od=0")
+        if r0 is None or not C.run_ok(r0):
+            stats["tool_failures"] += 1
+            chk.notes.append("multi-problem reference run failed on %s" % name)
+            continue
+        p0 = C.pairs_of(r0)
+        # how many of the three problems have flows (last digit classes of the sink number)
+        cls = set()
+        for sid in (b for a, b in C.reported_pairs(r0)):
+            cls.add(0 if sid % 10 <= 3 else (1 if sid % 10 <= 6 else 2))
+        stats["multi_problems_with_flows"] = max(stats["multi_problems_with_flows"], len(cls))
+        # the split must not change the unlimited result of the single-problem configuration
+        single = {r["spec"]: r for r in results[name].get("runs", [])}.get("od=0")
+        if single is not None and C.run_ok(single):
+            stats["multi_checks"] += 1
+            if C.pairs_of(single) == p0:
+                stats["multi_ok"] += 1
+            else:
+                found_concrete = True
+                rd = chk.replay_dir("multi-problem:unlimited-differs")
+                pd = C.copy_prog(d, rd)
+                open(os.path.join(rd, "replay.txt"), "w").write(
+                    "splitting the sources/sinks over three taint-tracking problems (config_multi.yaml) changes the reported pairs\nonly single: %s\nonly multi: %s\n"
+                    "re-run: %s -dir %s od=0 ; %s -dir %s -config %s/config_multi.yaml od=0\n"
+                    % (sorted(C.pairs_of(single) - p0)[:20], sorted(p0 - C.pairs_of(single))[:20], C.TRUN, pd, C.TRUN, pd, pd))
+                chk.violation("multi-problem:unlimited-differs", "pair set changes when the same sources/sinks are split over 3 problems (%s)" % name, rd)
+        for s_, r in runs.items():
+            if "ma=" not in s_ or not C.run_ok(r):
+                continue
+            k = int(re.search(r"ma=(\d+)", s_).group(1))
+            ref = runs.get("od=1") if s_.startswith("od=1") and runs.get("od=1") is not None and C.run_ok(runs["od=1"]) else r0
+            pr = C.pairs_of(ref)
+            p = C.pairs_of(r)
+            stats["multi_checks"] += 1
+            distinct.add((name, "multi:" + s_))
+            sub = p <= pr or (ref is r0 and s_.startswith("od=1"))      # od=1 is compared with od=0 only for count / emptiness
+            if sub and len(p) <= k and bool(p) == bool(pr):
+                stats["multi_ok"] += 1
+                continue
+            found_concrete = True
+            why = ("not a subset of the unlimited result" if not sub else
+                   ("%d pairs in total over the %d problems, more than k=%d" % (len(p), len(cls), k) if len(p) > k else "empty although the unlimited result has %d pairs" % len(pr)))
+            key = "max-alarms-multi-problem:" + ("subset" if not sub else ("count" if len(p) > k else "empty"))
+            rd = chk.replay_dir(key)
+            pd = C.copy_prog(d, rd)
+            open(os.path.join(rd, "replay.txt"), "w").write(
+                "max-alarms=%d with three taint-tracking problems (config_multi.yaml) on %s: %s\nlimited  : %s\nunlimited: %d pairs\n\n"
+                "re-run: %s -dir %s -config %s/config_multi.yaml od=0 %s\n" % (k, name, why, sorted(p)[:20], len(pr), C.TRUN, pd, pd, s_))
+            chk.violation(key, "max-alarms=%d with 3 taint-tracking problems on %s: %s" % (k, name, why), rd)
 
     # ---------------------------------------------------------------- backtrace: eager vs on-demand trace end points
     stats["bt_checks"] = 0
@@ -363,13 +430,13 @@ def run(chk):
 
     # current gaps, for the evidence (the _refuted side of rw_cover, computed from the regenerated tables)
     cur_gaps = sorted(x for x, r in schema.items() if r in ("read", "use") and x not in reads)
-    chk.cov["evaluations"] = stats["eq_checks"] + stats["ma_checks"] + stats["bt_checks"] + stats["rw_functions"]
+    chk.cov["evaluations"] = stats["eq_checks"] + stats["ma_checks"] + stats["multi_checks"] + stats["bt_checks"] + stats["rw_functions"]
     chk.cov["distinct_nontrivial"] = len(distinct)
     chk.cov["rule"] = ("one evaluation = one (program, option setting) comparison with the eager reference run, or one (function, global) "
                        "cross-check of the regenerated FnReadsFrom/FnWritesTo tables; non-trivial/distinct = distinct (program, option "
                        "setting) pairs whose run completed; %d of %d programs have a non-empty reference result" %
                        (stats["nonempty_reference"], stats["programs"]))
-    chk.cov["traces_validated_against_impl"] = stats["eq_ok"] + stats["ma_ok"] + stats["bt_ok"] + stats["rw_agree"]
+    chk.cov["traces_validated_against_impl"] = stats["eq_ok"] + stats["ma_ok"] + stats["multi_ok"] + stats["bt_ok"] + stats["rw_agree"]
     chk.cov["distribution"] = stats
     chk.cov["partial_or_refuted"] = [
         "rw_cover_statement (full coverage of FnReadsFrom) does not hold on this tree: current gaps %s; proved instead: "
